@@ -64,6 +64,7 @@ func makeShapes(cases []*Case) ([]*Shape, error) {
 		default:
 			return nil, fmt.Errorf("no generator for family %q", sh.Fam)
 		}
+		sh.Call = strings.Join(strings.Fields(sh.Call), " ")
 		// shapes of the seed- and tier-independent core come first when a minimal witness is chosen
 		sh.Size = append([]int{1 - b2i(isCore(sh))}, sh.Size...)
 	}
